@@ -2,6 +2,10 @@ import TapkeeVerif.Model.LinearGraph
 import TapkeeVerif.Proofs.LinearGraph
 import TapkeeVerif.Proofs.LinearGraphFixed
 import TapkeeVerif.Proofs.LinearGraphPreFix
+import Mathlib.Tactic.NormNum
+import Mathlib.Tactic.FinCases
+import Mathlib.LinearAlgebra.Matrix.Notation
+import TapkeeVerif.Proofs.SpectralLocal
 /-!
 C10 property theorems: the feature-space generalised eigenproblem `(lhs, rhs)` built by NPE / LLTSA / LPP
 (`construct_neighborhood_preserving_eigenproblem`, `construct_lltsa_eigenproblem`,
@@ -257,6 +261,80 @@ example : (genSolveLower (npeProblem refuteW refuteF)).1 0 1 = 2 ∧
     rw [refute_fullForm_01, mul_one]
   · rw [prefix_solver_sees_diag refuteW_symm, if_neg (by decide)]
 
--- SPECTRAL THEOREMS (appended by the spectral owner)
+/-! ## Spectral part (eigensolver contract `GenEigSystem` as hypothesis; `Proofs/SpectralLocal.lean`) -/
+
+section Spectral
+open TapkeeVerif.SpectralLocal
+variable {K : Type} [Field K] [LinearOrder K] [IsStrictOrderedRing K]
+
+
+/-- **NPE / LLTSA / LPP solve the full feature-space problem — provided the solver sees it.**
+    `(As, Bs)` is what the generalised solver reads (`genSolveLower` of the constructed pair), `(V, lam)` its full
+    `Bs`-orthonormal eigensystem with ascending eigenvalues (solver contract), `P` the first `d` columns (skip = 0).
+    If `As = c • A` and `Bs = c' • B` with `c, c' > 0` for the property's `A = X M Xᵀ`, `B = X B Xᵀ`
+    (`solver_sees_XMXt`: FALSE on the current tree, true for the patched routines with `c = 2`, `c' = 1`), then every
+    column solves `A p = (c'/c · lam) B p` and `P` minimises `tr(Zᵀ A Z)` over `Zᵀ B Z = 1/c'`-normalised `Z`
+    (stated for the seen pencil: `tr(Pᵀ As P) ≤ tr(Zᵀ As Z)` for all `Zᵀ Bs Z = 1`): the `d` smallest eigenvalues. -/
+theorem lin_solution {n d : Nat} (A B As Bs V : Matrix (Fin n) (Fin n) K) (lam : Fin n → K) (c c' : K)
+    (h : GenEigSystem As Bs V lam) (hA : As = c • A) (hB : Bs = c' • B) (hc : 0 < c) (hc' : 0 < c') (hd : 0 + d ≤ n) :
+    (∀ j : Fin d, A.mulVec (fun i => cols V (shiftIdx 0 hd) i j)
+        = (c' / c * lam (shiftIdx 0 hd j)) • B.mulVec (fun i => cols V (shiftIdx 0 hd) i j)) ∧
+    (cols V (shiftIdx 0 hd))ᵀ * B * cols V (shiftIdx 0 hd) = c'⁻¹ • (1 : Matrix (Fin d) (Fin d) K) ∧
+    (∀ j j' : Fin d, j ≤ j' → c' / c * lam (shiftIdx 0 hd j) ≤ c' / c * lam (shiftIdx 0 hd j')) ∧
+    ∀ Z : Matrix (Fin n) (Fin d) K, Zᵀ * B * Z = c'⁻¹ • (1 : Matrix (Fin d) (Fin d) K) →
+      Matrix.trace ((cols V (shiftIdx 0 hd))ᵀ * A * cols V (shiftIdx 0 hd)) ≤ Matrix.trace (Zᵀ * A * Z) := by
+  have hinj := shiftIdx_injective (d := d) (n := n) 0 hd
+  have hc0 : c ≠ 0 := ne_of_gt hc
+  have hc'0 : c' ≠ 0 := ne_of_gt hc'
+  have hBs : ∀ Z : Matrix (Fin n) (Fin d) K, Zᵀ * Bs * Z = c' • (Zᵀ * B * Z) := by
+    intro Z
+    rw [hB, Matrix.mul_smul, Matrix.smul_mul]
+  have hAs : ∀ Z : Matrix (Fin n) (Fin d) K, Zᵀ * As * Z = c • (Zᵀ * A * Z) := by
+    intro Z
+    rw [hA, Matrix.mul_smul, Matrix.smul_mul]
+  refine ⟨fun j => eigen_equation_scaled h hA hB hc0 _, ?_, ?_, ?_⟩
+  · have := cols_orthonormal h _ hinj
+    rw [hBs] at this
+    rw [← this, smul_smul, inv_mul_cancel₀ hc'0, one_smul]
+  · intro j j' hjj'
+    apply mul_le_mul_of_nonneg_left _ (le_of_lt (div_pos hc' hc))
+    apply h.sorted
+    show 0 + j.1 ≤ 0 + j'.1
+    have : j.1 ≤ j'.1 := hjj'
+    omega
+  · intro Z hZ
+    have hZs : Zᵀ * Bs * Z = 1 := by
+      rw [hBs, hZ, smul_smul, mul_inv_cancel₀ hc'0, one_smul]
+    have key := bottom_after_skip h 0 hd Z hZs (fun j hj => absurd hj (Nat.not_lt_zero _))
+    rw [hAs, hAs, Matrix.trace_smul, Matrix.trace_smul, smul_eq_mul, smul_eq_mul] at key
+    exact le_of_mul_le_mul_left key hc
+
+/-- **Rotation equivariance of the solution**: if the solver sees the full pencil, rotating the feature space
+    (`A ↦ R A Rᵀ`, `B ↦ R B Rᵀ`, which is what `X ↦ R X` does to `X M Xᵀ`, `X B Xᵀ`: `fullForm_rotate`) maps the
+    eigensystem `(V, lam)` to `(R V, lam)`: same eigenvalues, projection matrix rotated along — and then the embedding
+    `(x − mean)ᵀ P` is unchanged (`project_rotate`). -/
+theorem rotation_equivariance {n : Nat} (A B V R : Matrix (Fin n) (Fin n) K) (lam : Fin n → K)
+    (h : GenEigSystem A B V lam) (hR : Rᵀ * R = 1) :
+    GenEigSystem (R * A * Rᵀ) (R * B * Rᵀ) (R * V) lam ∧
+    ∀ (d : Nat) (e : Fin d → Fin n), cols (R * V) e = R * cols V e := by
+  refine ⟨h.rotate R hR, ?_⟩
+  intro d e
+  ext i c
+  simp [cols, Matrix.mul_apply]
+
+/-- non-vacuity of `lin_solution`: `A = ½ !![1,-1;-1,1]`, `B = diag(2,2)`, the solver sees `As = 2 • A`, `Bs = 1 • B`
+    with the `Bs`-orthonormal eigensystem `V = ½ !![1,1;1,-1]`, `lam = (0, 1)` -/
+example : GenEigSystem ((2 : ℚ) • ((1 / 2 : ℚ) • (!![1, -1; -1, 1] : Matrix (Fin 2) (Fin 2) ℚ)))
+      ((1 : ℚ) • (Matrix.diagonal ![2, 2] : Matrix (Fin 2) (Fin 2) ℚ)) ((1 / 2 : ℚ) • !![1, 1; 1, -1]) ![0, 1] := by
+  refine ⟨?_, ?_, ?_⟩
+  · ext i j
+    fin_cases i <;> fin_cases j <;> simp [Matrix.mul_apply, Fin.sum_univ_two] <;> norm_num
+  · ext i j
+    fin_cases i <;> fin_cases j <;> simp [Matrix.mul_apply, Fin.sum_univ_two] <;> norm_num
+  · intro a b hab
+    fin_cases a <;> fin_cases b <;> simp_all
+
+end Spectral
+
 
 end TapkeeVerif.C10
